@@ -148,9 +148,20 @@ def tlc_error(res):
 
 def load_known():
     p = os.path.join(VERIF, "known-findings.json")
-    if not os.path.exists(p):
-        return {"findings": [], "fixed": []}
-    return json.load(open(p))
+    k = {"findings": [], "fixed": []}
+    if os.path.exists(p):
+        k = json.load(open(p))
+    # proposals of families still under construction (merged into known-findings.json by the lead)
+    pd = os.path.join(VERIF, "proposals")
+    if os.path.isdir(pd):
+        for f in sorted(os.listdir(pd)):
+            if f.endswith(".json"):
+                try:
+                    j = json.load(open(os.path.join(pd, f)))
+                    k["findings"] += j.get("findings", [])
+                except Exception:
+                    pass
+    return k
 
 
 def match_known(known, prop, sig):
@@ -166,6 +177,8 @@ def match_known(known, prop, sig):
         if "last_op" in m and sig.get("last_op") not in (m["last_op"] if isinstance(m["last_op"], list) else [m["last_op"]]):
             continue
         if "requires_ops" in m and not set(m["requires_ops"]) <= set(sig.get("ops", [])):
+            continue
+        if "requires_any_ops" in m and not set(m["requires_any_ops"]) & set(sig.get("ops", [])):
             continue
         if "witness" in m and sig.get("witness_key") != m["witness"]:
             continue
